@@ -59,6 +59,8 @@ def alphabet(ninst):
     for i in range(ninst):
         evs += [ev("clone", i), ev("drop", i), ev("verify", i), ev("nvid", i), ev("lend", i),
                 ev("call", i, 0, 1), ev("call", i, 2, 0), ev("call", i, 1, 0)]
+        # a lent value that calls the mock (through a clone it owns) when the instance's value chain is released
+        evs += [ev("lendcall", i, 1, 0)]
     evs += [ev("report", 0), ev("drop", 0, other=True), ev("verify", 0, other=True), ev("report", 0, other=True)]
     # Clone::clone_from: the target is overwritten in place by a clone of the source (its old value is dropped there)
     evs += [ev("clonefrom", i, j) for i in range(ninst) for j in range(ninst) if i != j]
@@ -79,8 +81,10 @@ def random_seq(rng, n):
             evs.append(ev("clonefrom", i, j))             # i stays alive: it now holds a clone of j
         elif r < 0.4:
             evs.append(ev("call", i, rng.choice([0, 0, 1, 2, 3]), rng.choice([0, 1]), other=other))
-        elif r < 0.5:
+        elif r < 0.46:
             evs.append(ev("lend", i))
+        elif r < 0.5:
+            evs.append(ev("lendcall", i, rng.choice([0, 1, 2, 3]), rng.choice([0, 1])))
         elif r < 0.58:
             evs.append(ev("nvid", i));
             if i != 0: alive.discard(i)
